@@ -51,7 +51,8 @@ Verdict(ok, skip, what) ==
   /\ IF skip THEN nskip' = nskip + 1 /\ UNCHANGED <<nacc, nrej>>
      ELSE IF ok THEN nacc' = nacc + 1 /\ UNCHANGED <<nskip, nrej>>
      ELSE /\ nrej' = nrej + 1 /\ UNCHANGED <<nskip, nacc>>
-          /\ PrintT(<<"REJECT", cur, what, l>>)
+          /\ PrintT(<<"REJECT", cur, what, l, ToJson([i \in Idx(st.frame) |-> st.frame[i].name]),
+                       ToJson([i \in Idx(st.frame) |-> st.frame[i].src])>>)
   /\ UNCHANGED <<st, cur, dbs, schema>>
 
 \* bag-level acceptance: some world has the observed rows as a bag
